@@ -418,7 +418,8 @@ package restful
 //@ ensures admitted: err == nil && TrimRightSlashEnabled ==> routeAdmits(selected, httpRequest)
 //@ ensures member: err == nil ==> exists(0, len(webServices), func(i int) bool { return webServices[i] == selectedService && exists(0, len(selectedService.routes), func(k int) bool { return same(*selected, selectedService.routes[k]) }) })
 //@ modifies nothing
-//@ nopanic
+// no `nopanic`: a custom RouteSelector and the route conditions it evaluates are user code and may panic (C10, C12:
+// the services lock must be released on that exit too)
 
 // Admission stated over the token slice equals admission stated over the URL path.
 //@ lemma C01.tokens-bridge
@@ -484,11 +485,13 @@ package restful
 //@ requires strategy: TrimRightSlashEnabled
 //@ opt opaque svcOK validCRW ctAdmits acceptAdmits pathAdmitsP noEmptyEntry wfTemplate
 //@ modifies httpWriter.(*CompressingResponseWriter).compressor, headers, ghost $trace, ghost $g.held, ghost $g.ztarget, ghost $g.zclosed, ghost $g.accepted, ghost $g.lasterr, ghost $g.wcalls, ghost $g.wstatus, ghost $g.whcalls, ghost $g.own.closes
+// C04: parameters are extracted by the processor that belongs to the router that selected the route
+//@ callsite iface:PathProcessor.ExtractParameters [C04] processor: processorFor(c.router, self) && arg0 == route && arg1 == webService && arg2 == httpRequest.URL.Path
 //@ ensures lock-balance: servicesLock(c) == 0
 //@ signals lock-balance: servicesLock(c) == 0
 // C10/C13: no compressor is lost or kept: everything dispatch acquired has been released, on every exit
-//@ ensures [C10 C13] pool-balance: !isCRW(httpWriter) ==> ghostInt("own.acquired", currentCompressorProvider) - ghostIntAtEntry("own.acquired", currentCompressorProvider) == ghostInt("own.released", currentCompressorProvider) - ghostIntAtEntry("own.released", currentCompressorProvider)
-//@ signals [C10 C13] pool-balance: !isCRW(httpWriter) ==> ghostInt("own.acquired", currentCompressorProvider) - ghostIntAtEntry("own.acquired", currentCompressorProvider) == ghostInt("own.released", currentCompressorProvider) - ghostIntAtEntry("own.released", currentCompressorProvider)
+//@ ensures [C10] pool-balance: !isCRW(httpWriter) ==> ghostInt("own.acquired", currentCompressorProvider) - ghostIntAtEntry("own.acquired", currentCompressorProvider) == ghostInt("own.released", currentCompressorProvider) - ghostIntAtEntry("own.released", currentCompressorProvider)
+//@ signals [C10] pool-balance: !isCRW(httpWriter) ==> ghostInt("own.acquired", currentCompressorProvider) - ghostIntAtEntry("own.acquired", currentCompressorProvider) == ghostInt("own.released", currentCompressorProvider) - ghostIntAtEntry("own.released", currentCompressorProvider)
 //@ signals contained: c.doNotRecover || lastCallee(calls(), c.recoverHandleFunc)
 // C07/C10: a compressing writer in use at exit has been closed exactly once by dispatch, on every exit
 //@ ensures closed: isCRW(writer) ==> ownCloses(writer.(*CompressingResponseWriter)) == ghostIntAtEntry("own.closes", writer.(*CompressingResponseWriter)) + 1
@@ -654,6 +657,8 @@ package restful
 // 405: collecting the allowed methods (C17: exactly the methods of the candidates, each once)
 //@ callsite NewErrorWithHeader [C02 C17] allow-sound: arg0 == 405 ==> forall(0, len(allowed), func(i int) bool { return exists(0, len(previous), func(j int) bool { return previous[j].Method == allowed[i] }) })
 //@ callsite NewErrorWithHeader [C02 C17] allow-once: arg0 == 405 ==> forall(0, len(allowed), func(i int) bool { return forall(i+1, len(allowed), func(k int) bool { return allowed[i] != allowed[k] }) })
+//@ callsite NewErrorWithHeader [C02 C17] allow-complete: arg0 == 405 ==> forall(0, len(previous), func(j int) bool { return exists(0, len(allowed), func(i int) bool { return allowed[i] == previous[j].Method }) })
+//@ loop 3 invariant complete: forall(0, it_i, func(j int) bool { return exists(0, len(allowed), func(i int) bool { return allowed[i] == previous[j].Method }) })
 //@ loop 3 invariant fresh: fresh(allowed)
 //@ loop 3 invariant previous: forall(0, len(previous), func(j int) bool { return ptrInto(previous[j], routes) })
 //@ loop 3 invariant sound: forall(0, len(allowed), func(i int) bool { return exists(0, it_i, func(j int) bool { return previous[j].Method == allowed[i] }) })
